@@ -96,7 +96,7 @@ DATA_A: dict[str, Any] = {
     "items": [{"x": 1, "t": "one", "f": True}, {"x": 2, "t": "two", "f": False}, {"x": 3, "t": "three"}],
     "s": "hello", "u": "World Wide", "n": 3, "m": 0, "t": True, "f": False, "z": None,
     "arr": [1, 2, 3, 4, 5, 6], "words": ["b", "a", "c", "a"], "é": "accent", "tpl": "p",
-    "fl": 2.5, "x": "X", "y": "Y", "a-b": "dash", "and": "AND",
+    "fl": 2.5, "x": "X", "y": "Y", "a-b": "dash", "and": "AND", "h": "<i>&\"'</i>",
     # variables whose names are words the serialiser also prints bare
     "continue": 2, "limit": [9, 8], "offset": 1, "reversed": [7], "cols": 2, "inf": "INFVAR", "my": "MY",
 }
@@ -815,6 +815,68 @@ def _branch_units() -> Iterator[tuple[str, str]]:
                     yield f" \n pre \n {src} \n post \n ", f"branch-{name}-{bname}"
 
 
+# Template strings whose interpolations are literals of every kind, alone and mixed with
+# variables, with HTML-special characters in the text (they matter under auto_escape).
+HTML_TSTRS = [
+    "\"<b>${'bold'}</b>\"", "'<${\"a&b\"}>'", "'n=${1}&'", "'${1.5}<'", "'${true}&${false}'", "'<${nil}>'", "'${(1..3)}<'",
+    "'<${'in${'ner'}'}>'", "'<${'x'}${\"y\"}>'", "'<${'lit'}&${h}>'", "'${h}'", "'<${h}>'", "'<${'lit' | upcase}>'",
+    "\"${'<'}\"", "'a${''}b<'", "'<${s}&${'lit'}>${n}'", "'${'<b>'}${s | upcase}${\"</b>\"}'", "'<${-3}|${1e2}|${2.50}>'",
+    "'${'it\\'s <'}&'", "\"${\"q\\\"<\"}&\"", "'<b>&</b>'", '"<a href=\\"x\\">"', "h", "'${'a'}'", "'${blank}<${empty}>'",
+]
+HTML_SITES = [
+    "{{ {} }}", "{% echo {} %}", "{% assign v = {} %}{{ v }}|{{ v | escape }}", "{{ {} | upcase }}", "{{ h | append: {} }}",
+    "{{ {} | append: h }}", "{% if {} == '<b>bold</b>' %}T{% else %}F{% endif %}{{ {} }}", "{{ {} if t else h }}",
+    "{{ h if f else {} }}", "{% capture c %}{{ {} }}{% endcapture %}{{ c }}", "{% liquid echo {} %}",
+    "{% cycle {}, h %}{% cycle {}, h %}", "{% render 'p', x: {} %}", "{% include 'p' with {} as x %}",
+    "{% with v: {} %}{{ v }}{{ v | safe }}{% endwith %}", "{% for i in {}, h %}{{ i }}{% endfor %}",
+    "{{ 'o${ {} }c' }}", "{{ {} | safe }}|{{ {} | escape_once }}", "{% case {} %}{% when '<b>bold</b>' %}m{% else %}{{ {} }}{% endcase %}",
+]
+
+
+def _htmlts_units() -> Iterator[tuple[str, str]]:
+    for ti, t in enumerate(HTML_TSTRS):
+        for si, site in enumerate(HTML_SITES):
+            if "${ {} }" in site and ("'" in t and '"' in t):
+                continue
+            yield _fill(site, t), f"htmlts-{ti}@{si}"
+
+
+def _digit_limits() -> list[int]:
+    import sys
+
+    lims = set()
+    if hasattr(sys, "get_int_max_str_digits") and sys.get_int_max_str_digits():
+        lims.add(sys.get_int_max_str_digits())
+    try:
+        from liquid2.limits import MAX_STR_INT  # noqa: PLC0415
+
+        if MAX_STR_INT:
+            lims.add(int(MAX_STR_INT))
+    except Exception:  # noqa: BLE001
+        pass
+    return sorted(lims) or [4300]
+
+
+def _bignum_units() -> Iterator[tuple[str, str]]:
+    """Integer (and float) literals whose digit count sits at limit-1, limit, limit+1 in every
+    mantissa/exponent split, in positions that do not print them.  Whatever parses must have a
+    str() that does not raise and that round-trips."""
+    sites = [
+        ("{% if {} > 1 %}T{% else %}F{% endif %}", "if"), ("{% assign v = {} %}ok", "assign"),
+        ("{{ 'T' if {} else 'F' }}", "ternary"), ("{% if n < {} and {} == {} %}T{% endif %}", "if-compare-self"),
+        ("{% for i in arr limit: {} %}{{ i }}{% endfor %}", "for-limit"), ("{% case {} %}{% when {} %}same{% endcase %}", "case"),
+        ("{% liquid assign v = {}\n echo 'ok' %}", "liquid-assign"), ("{{ arr | where: i => i < {} | size }}", "lambda"),
+        ("{% assign v = {} %}{{ v | size }}", "assign-then-filter"), ("{% unless {} %}F{% endunless %}", "unless"),
+    ]
+    for lim in _digit_limits():
+        for d in (lim - 1, lim, lim + 1):
+            lits = [f"1e{d - 1}", f"25e{d - 2}", f"123456e{d - 6}", "7" * 100 + f"e{d - 100}", "9" * d,
+                    f"-1e{d - 1}", f"-{'9' * d}", f"1E+{d - 1}", "1" + "0" * (d - 3) + "e2", f"1.5e{d}", f"{'9' * d}.5"]
+            for li, lit in enumerate(lits):
+                for site, sname in sites:
+                    yield _fill(site, lit), f"bignum-{'lim' if d == lim else ('lim-1' if d < lim else 'lim+1')}-{li}@{sname}"
+
+
 def encode_string(value: str, q: str) -> str:
     """Liquid source text (without the delimiters) of a string whose value is *value*, using
     only the escapes that are mandatory inside a *q*-quoted string."""
@@ -928,6 +990,10 @@ def unit_cases() -> list[tuple[str, str, str]]:
         add("strseq", feat, src)
     for src, feat in _rawctl_units():
         add("rawctl", feat, src)
+    for src, feat in _htmlts_units():
+        add("htmlts", feat, src)
+    for src, feat in _bignum_units():
+        add("bignum", feat, src)
     return out
 
 
